@@ -56,3 +56,10 @@ claim('C07', 'Coq theorems on the scope chain for every context + induction on e
       'expression evaluates identically in parse, build and sizeof. The suite enumerates nesting shapes to depth 3 (4 in thorough) of all five '
       'scope-pushing classes with repetitions and checks every probe in parse, build and sizeof on the library and against the extracted '
       'model; one documented LazyStruct restriction is a recorded known finding.', 'DESIGN.md 6/C07')
+claim('C20', 'Coq theorems (equality relation, heap invariant over any mutation history, character-level inversion) + correspondence + oracles',
+      'Container equality: private entries ignored, agreement with plain-dict equality, reflexive and symmetric recursively (induction on '
+      'nested values). Copy semantics on an object heap: deepcopy/pickle allocate only fresh objects, and after ANY sequence of set/delete/'
+      'append through the copy the original denotes the same value (invariant over the operation list); copies keep the attribute view. '
+      'hexundump(hexdump(d, n), n) = d for every byte string and line size at the character level. The extracted model (equality, heap '
+      'operation language, hexdump text) is compared with the library; oracles check views, independence at every nested object, search.',
+      'DESIGN.md 6/C20')
